@@ -56,7 +56,9 @@ JudgeLazy(B) ==
       <<"P:C14:lazy-active-" \o B.op, B.act = expAct>> >>)
 
 JudgeOwner(B) ==
-  Fails(<< <<"P:C14:owner-attrs-replace", B.after_rid = B.rank_rid /\ B.after_shape = B.rank_shape /\ B.after_dflt = B.rank_dflt>> >>)
+  Fails(<< <<"P:C14:owner-attrs-replace", B.after_rid = B.rank_rid /\ B.after_shape = B.rank_shape /\ B.after_dflt = B.rank_dflt>>,
+           \* the shape the joined fiber reports still contains its coordinates (a fiber that declared a larger shape than the tensor keeps its room)
+           <<"P:C14:coord-in-shape", B.maxcoord < B.after_shape>> >>)
 
 Judge(B) == IF B.exc # "ok" THEN <<"P:C14:no-exception">>
             ELSE CASE B.kind = "transform" -> JudgeTransform(B) [] B.kind = "lazy" -> JudgeLazy(B) [] B.kind = "owner" -> JudgeOwner(B)
